@@ -5,7 +5,7 @@
 package subscribe
 
 // Every function under contract in this package also serves the properties that depend on the whole package.
-//@ package-props C01 C04 C05 C06 C07 C08
+//@ package-props C01 C04 C05 C06 C07 C08 C12
 
 // The per-RPC ACL: its answer for a target is recorded in the ghost pair
 // (lastChecked, lastVerdict) declared with the gRPC stubs; Send requires it.
